@@ -127,10 +127,10 @@ func sigSetEqualLoose(a, b *action.SignedTx) bool {
 }
 
 type c05Oracle struct {
-	shadow  *core.Replica
-	resubs  int
-	blocks  int
-	okOrig  int
+	shadow *core.Replica
+	resubs int
+	blocks int
+	okOrig int
 }
 
 func (o *c05Oracle) Inputs() int { return o.resubs }
@@ -195,7 +195,9 @@ func (o *c05Oracle) AfterStep(e *core.Engine, idx int, st *core.Step, stepErr er
 }
 
 func (o *c05Oracle) Finish(e *core.Engine) []core.Violation { return nil }
-func (o *c05Oracle) NonTrivial(e *core.Engine) bool          { return o.resubs >= 3 && o.blocks >= 1 && o.okOrig >= 3 }
+func (o *c05Oracle) NonTrivial(e *core.Engine) bool {
+	return o.resubs >= 3 && o.blocks >= 1 && o.okOrig >= 3
+}
 
 func init() {
 	Register(&ClusterProp{
